@@ -390,7 +390,11 @@ func xmlStructShape(t reflect.Type, path string, ownSpace string, stack []reflec
 				name = f.Name
 			}
 			it := "@{" + space + "}" + name
-			if flags["omitempty"] {
+			at := f.Type
+			for at.Kind() == reflect.Ptr {
+				at = at.Elem()
+			}
+			if (flags["omitempty"] && at.Kind() != reflect.Struct) || xmlHasMethod(at, "MarshalXMLAttr") {
 				it += "?"
 			}
 			items = append(items, it)
